@@ -49,6 +49,8 @@ type dequeDrv struct {
 	popped int
 	genB   int
 	bumped bool
+	// extra Grow / Shrink arguments offered by enumOps (set only by the scripted families)
+	moreGrow, moreShrink []int
 }
 
 func (dv *dequeDrv) newTok() int { dv.tok++; return dv.tok }
@@ -301,6 +303,7 @@ func (dv *dequeDrv) enumOps(y map[int]bool) []op {
 		grows = append(grows, extra)
 	}
 	grows = append(grows, extra+1, extra+8)
+	grows = addMissing(grows, dv.moreGrow)
 	for _, g := range grows {
 		g := g
 		lab := "Grow(realloc)"
@@ -322,6 +325,7 @@ func (dv *dequeDrv) enumOps(y map[int]bool) []op {
 		shrinks = append(shrinks, extra)
 	}
 	shrinks = append(shrinks, extra+3)
+	shrinks = addMissing(shrinks, dv.moreShrink)
 	for _, sh := range shrinks {
 		sh := sh
 		lab := "Shrink(no-op)"
@@ -354,14 +358,15 @@ type hel struct{ pri, id int }
 func (e hel) String() string { return fmt.Sprintf("{p%d #%d}", e.pri, e.id) }
 
 type heapDrv struct {
-	h      xheap.Heap[hel]
-	m      map[int]int // id -> pri, present elements
-	all    map[int]int // every element ever stored
-	nid    int
-	prob   string
-	popped hel
-	peeked hel
-	cons   string
+	h                    xheap.Heap[hel]
+	m                    map[int]int // id -> pri, present elements
+	all                  map[int]int // every element ever stored
+	nid                  int
+	prob                 string
+	popped               hel
+	peeked               hel
+	cons                 string
+	moreGrow, moreShrink []int
 }
 
 var heapConstructions = []string{"New(initial,exact cap)", "New(initial,spare cap)", "New(nil)+Push", "NewCmp(initial)"}
@@ -517,7 +522,7 @@ func (dv *heapDrv) enumOps(y map[int]bool) []op {
 			delete(dv.m, dv.popped.id)
 		}})
 
-	for _, g := range []int{0, 1, n + 9} {
+	for _, g := range addMissing([]int{0, 1, n + 9}, dv.moreGrow) {
 		g := g
 		lab := fmt.Sprintf("Grow(%d)", g)
 		if g > 1 {
@@ -525,7 +530,7 @@ func (dv *heapDrv) enumOps(y map[int]bool) []op {
 		}
 		add(op{label: lab, desc: fmt.Sprintf("Grow(%d)", g), mutating: true, do: func() { h.Grow(g) }})
 	}
-	for _, sh := range []int{0, 1, 64} {
+	for _, sh := range addMissing([]int{0, 1, 64}, dv.moreShrink) {
 		sh := sh
 		lab := fmt.Sprintf("Shrink(%d)", sh)
 		add(op{label: lab, desc: lab, mutating: true, do: func() { h.Shrink(sh) }})
@@ -537,14 +542,15 @@ func (dv *heapDrv) enumOps(y map[int]bool) []op {
 // PriorityQueue (keys are positive ints; the iterator yields keys only)
 
 type pqDrv struct {
-	q      xheap.PriorityQueue[int, int]
-	m      map[int]int // key -> priority
-	ever   map[int]bool
-	nk     int
-	prob   string
-	popped int
-	peeked int
-	cons   string
+	q        xheap.PriorityQueue[int, int]
+	m        map[int]int // key -> priority
+	ever     map[int]bool
+	nk       int
+	prob     string
+	popped   int
+	peeked   int
+	cons     string
+	moreGrow []int
 }
 
 var pqConstructions = []string{"NewPriorityQueue(initial)", "NewPriorityQueue(nil)+Update", "NewPriorityQueueCmp(initial)"}
@@ -714,7 +720,7 @@ func (dv *pqDrv) enumOps(y map[int]bool) []op {
 			delete(dv.m, dv.popped)
 		}})
 
-	for _, g := range []int{0, 1, n + 9} {
+	for _, g := range addMissing([]int{0, 1, n + 9}, dv.moreGrow) {
 		g := g
 		lab := fmt.Sprintf("Grow(%d)", g)
 		if g > 1 {
@@ -723,4 +729,13 @@ func (dv *pqDrv) enumOps(y map[int]bool) []op {
 		add(op{label: lab, desc: fmt.Sprintf("Grow(%d)", g), mutating: true, do: func() { q.Grow(g) }})
 	}
 	return ops
+}
+
+func addMissing(base, more []int) []int {
+	for _, x := range more {
+		if !containsInt(base, x) {
+			base = append(base, x)
+		}
+	}
+	return base
 }
